@@ -8,7 +8,7 @@
    invent an index.  Which StorageSlot nodes the passes create is the stage half: only at or below an executed storage access
    (C05_lifts_only_under_access), with literal keys taken from key constants, table preimages and constant additions outside
    the known class K3 (C05_lifts_only_in_keys_outside_K3, K3_refuted). *)
-From SLX Require Import Base gen.Constants SymVal Disasm VM Fold PassesSlots Register AbiT Layout Abi Pipeline.
+From SLX Require Import Base gen.Constants SymVal Disasm VM Fold PassesSlots Register AbiT Layout Abi Pipeline TcCases.
 From SLX.proofs Require Import PipelineAttribution.
 Open Scope N_scope.
 
@@ -20,6 +20,16 @@ Theorem pipeline_rows_attributed : forall keccak table mode fu bytes cfg l,
     forall e, In e l -> exists v, In v lifted /\ slot_node_of (fst (fst e)) v.
 Proof. exact pipeline_rows_attributed_lemma. Qed.
 
+(* the attribution is tight (the C06 direction at the same level): every StorageSlot node with a literal key that occurs in a
+   lifted value IS reported, whatever unification made of its type -- so the set of reported slot indices is exactly the set
+   of literal keys of the StorageSlot nodes of the lifted values *)
+Theorem pipeline_slot_nodes_reported : forall keccak table mode fu bytes cfg l,
+  analyze_model_fuel keccak table mode fu bytes cfg = PLayout l ->
+  exists lifted, (exists code m, try_from bytes = Ok code /\ run_p constant_fold (f_vm fu) (init_vm code cfg) = RDone m /\
+    Forall2 (fun v v' => lift_value keccak table v = Ok v') (unique (all_values mode (v_stored m))) lifted) /\
+  forall c v, In v lifted -> In (slot_sv c) (subterms v) -> exists off ty, In (c, off, ty) l.
+Proof. exact pipeline_slot_nodes_reported_lemma. Qed.
+
 (* registration: every expression of the state is the typed image of a subterm of a registered value *)
 Theorem register_only_subterms : forall l w x, In (w, x) (exprs (snd (assign_vars l))) ->
   exists v, In v l /\ In (erase x) (subterms v).
@@ -30,3 +40,4 @@ Qed.
 
 Print Assumptions pipeline_rows_attributed.
 Print Assumptions register_only_subterms.
+Print Assumptions pipeline_slot_nodes_reported.
